@@ -10,7 +10,9 @@ Lemma inline_sets_null_ok : inline_sets_null = true. Proof. reflexivity. Qed.
 Lemma inline_clears_ok : inline_clears = true. Proof. reflexivity. Qed.
 Lemma ool_sets_null_ok : ool_sets_null = true. Proof. reflexivity. Qed.
 Lemma ool_clears_ok : ool_clears = true. Proof. reflexivity. Qed.
+Lemma unchecked_ok m : unchecked m = false. Proof. destruct m; reflexivity. Qed.
 Ltac genfacts := rewrite ?inline_sets_null_ok, ?inline_clears_ok, ?ool_sets_null_ok, ?ool_clears_ok in *.
+Ltac usablefacts := unfold usable in *; rewrite ?unchecked_ok, ?orb_false_r in *.
 
 (* ---------- list helpers *)
 Lemma upd_length {A} (l : list A) i x : length (upd l i x) = length l.
@@ -153,7 +155,7 @@ Proof.
   intros HI Ho Ht H. specialize (HI Ho). unfold refusal.
   destruct L as [md op dict props addr]; cbn [lmode lopen ldict lprops laddr] in *; subst op.
   destruct o; try discriminate; cbn [step_lib] in H;
-    unfold fetch_fn, ool_globsupport, inline_prop, with_props, with_dict, with_addr in *;
+    unfold fetch_fn, ool_globsupport, inline_prop, with_props, with_dict, with_addr in *; usablefacts;
     cbn [lmode lopen ldict lprops laddr] in *;
     rewrite ?consts_no_var, ?consts_no_fn in H by auto;
     brk; inv_pairs; cbn [lmode lopen closed_exn]; auto.
@@ -168,7 +170,7 @@ Proof.
   intros HI Ho Ha H. specialize (HI Ho). unfold refusal.
   destruct L as [md op dict props addr]; cbn [lmode lopen ldict lprops laddr] in *; subst op.
   cbn [step_lib] in H;
-    unfold fetch_fn, ool_globsupport, inline_prop, with_props, with_dict, with_addr in *;
+    unfold fetch_fn, ool_globsupport, inline_prop, with_props, with_dict, with_addr in *; usablefacts;
     cbn [lmode lopen ldict lprops laddr] in *;
     rewrite ?consts_no_var, ?consts_no_fn, ?Ha in H by auto;
     brk; inv_pairs; cbn [lmode lopen laddr closed_exn]; auto.
@@ -183,7 +185,7 @@ Proof.
   intros Ho H.
   destruct L as [md op dict props addr]; cbn [lmode lopen ldict lprops laddr] in *; subst op.
   destruct o; cbn [step_lib] in H; genfacts;
-    unfold fetch_fn, ool_globsupport, inline_prop, with_props, with_dict, with_addr in *;
+    unfold fetch_fn, ool_globsupport, inline_prop, with_props, with_dict, with_addr in *; usablefacts;
     cbn [lmode lopen ldict lprops laddr] in *;
     brk; inv_pairs; cbn [lmode lopen laddr]; auto.
 Qed.
@@ -295,7 +297,7 @@ Proof.
   intros HI Ho Ht Hd H. specialize (HI Ho).
   destruct L as [md op dict props addr]; cbn [lmode lopen ldict lprops laddr] in *; subst op.
   destruct o; try discriminate; cbn [step_lib declared] in *;
-    unfold fetch_fn, ool_globsupport, inline_prop, with_props, with_dict, with_addr in *;
+    unfold fetch_fn, ool_globsupport, inline_prop, with_props, with_dict, with_addr in *; usablefacts;
     cbn [lmode lopen ldict lprops laddr] in *;
     rewrite ?consts_no_var, ?consts_no_fn in H by auto;
     brk; inv_pairs; cbn [lmode lopen closed_exn]; auto; try discriminate.
@@ -355,7 +357,7 @@ Proof.
   intros Hn H.
   destruct L as [md op dict props addr]; cbn [lmode lopen ldict lprops laddr] in *.
   destruct o; cbn [step_lib] in H; genfacts;
-    unfold fetch_fn, ool_globsupport, inline_prop, with_props, with_dict, with_addr in *;
+    unfold fetch_fn, ool_globsupport, inline_prop, with_props, with_dict, with_addr in *; usablefacts;
     cbn [lmode lopen ldict lprops laddr] in *;
     brk; inv_pairs; cbn [lmode lopen laddr]; auto; exfalso; eapply Hn; eauto.
 Qed.
